@@ -416,6 +416,7 @@ class XformWorld:
         self.after_fault = False
         self.n_roots = 0
         self.step = 0
+        self.xf: Dict[Tuple[int, str], Any] = {}  # persistent ImageTransformer / PointSetTransformer per (handle, kind)
 
     # ------------------------------------------------------------ bookkeeping
     def close(self):
@@ -1026,14 +1027,43 @@ class _Ops:
             pts = self.pts(op["pseed"], N)
         none = self.has_none(x) or not self.links_synced(x)
         tw, terr = (None, None) if none else self._twin(x)
+        via = op.get("via")
+        if via:
+            # a spatial transformer module created earlier (and kept) evaluates the transform as a functor:
+            # it must see the transform's state of *now* (it snapshots only the grids it was given)
+            from deepali.spatial.transformer import ImageTransformer, PointSetTransformer
+
+            gk = gen.grid_key(x.obj.grid())
+            ent = self.xf.get((x.hid, via))
+            if ent is None or ent[1] != gk or ent[0].transform is not x.obj:
+                stc, mod = self.guarded(lambda: ImageTransformer(x.obj) if via == "image" else PointSetTransformer(x.obj))
+                if stc != "ok":
+                    return StepResult("expected_error", "transformer-ctor")
+                ent = (mod, gk)
+                self.xf[(x.hid, via)] = ent
+                self.c["probes"]["transformer_created"] += 1
+            else:
+                self.c["probes"]["transformer_reused"] += 1
+            mod = ent[0]
+            if via == "image":
+                shape = tuple(int(n) for n in x.obj.grid().shape)
+                arg = gen.smooth_field(int(op["pseed"]), 1, shape, 1.0).expand(max(N, 1), 1, *shape).clone()
+                real = lambda: mod(arg)
+                twin_eval = lambda t_: ImageTransformer(t_)(arg)
+            else:
+                real = lambda: mod(pts)
+                twin_eval = lambda t_: PointSetTransformer(t_)(pts)
+        else:
+            real = lambda: x.obj(pts, grid=use_grid)
+            twin_eval = lambda t_: t_(pts, grid=use_grid)
         k = op.get("interrupt")
         if k is not None:
             with Interrupt(int(k)) as mode:
-                st, y = self.guarded(lambda: x.obj(pts, grid=use_grid), expect=(Exception,) if none else self.may_be_singular(x))
+                st, y = self.guarded(real, expect=(Exception,) if none else self.may_be_singular(x))
             if mode.fired:
                 self.c["faults"]["interrupt"] += 1
         else:
-            st, y = self.guarded(lambda: x.obj(pts, grid=use_grid), expect=(Exception,) if none else self.may_be_singular(x))
+            st, y = self.guarded(real, expect=(Exception,) if none else self.may_be_singular(x))
         if st == "faulted":
             if "callable" in str(y):
                 self.c["faults"]["callable_raises"] += 1
@@ -1062,7 +1092,7 @@ class _Ops:
             else:
                 self.c["probes"]["twin_unavailable"] += 1
             return out
-        st2, yt = self.guarded(lambda: tw(pts, grid=use_grid))
+        st2, yt = self.guarded(lambda: twin_eval(tw))
         if st2 == "expected":
             return out
         if st2 != "ok":
@@ -1070,6 +1100,8 @@ class _Ops:
             return out
         ok, err = close(y, yt)
         self.c["checks"]["call_vs_twin"] += 1
+        if via:
+            self.c["checks"]["call_via_" + via + "_transformer"] += 1
         if id(x.obj) in self.changed_handles or x.comp in self.changed_comps:
             self.c["checks"]["call_vs_twin_after_change"] += 1
             self.nontrivial = True
@@ -1077,7 +1109,7 @@ class _Ops:
             self.c["checks"]["call_vs_twin_after_fault"] += 1
             self.after_fault = False
         if not ok:
-            out.violations.append(self.viol("C09", "stale-call", x, "call" + ("(grid)" if use_grid else ""), {"max_err": err, "buf_model": x.buf}))
+            out.violations.append(self.viol("C09", "stale-call", x, "call" + ("(grid)" if use_grid else "") + (":" + via if via else ""), {"max_err": err, "buf_model": x.buf}))
         return out
 
     def op_disp(self, op) -> StepResult:
@@ -1749,6 +1781,14 @@ class _Ops:
             return StepResult("skipped")
         if any(self.owned_by_pred(m) for m in ms):
             return StepResult("skipped")
+        # shallow copies of a generic transform with predicted parameters share their member objects: inside one
+        # composite each update() would overwrite the prediction of the other (order dependent, not a staleness question)
+        seen_elems: set = set()
+        for m in ms:
+            ids = {id(e) for e in walk_elems(m.obj)}
+            if ids & seen_elems and any(generic_pred(y.obj) or any(generic_pred(c) for c in self.composites_below(y.obj)) for y in ms):
+                return StepResult("skipped")
+            seen_elems |= ids
         cls = MultiLevelTransform if op["kind"] == "multi" else SequentialTransform
         if cls is MultiLevelTransform and (all(m.obj.linear for m in ms) or any(self.batch_of(m.obj) != 1 for m in ms)):
             return StepResult("skipped")
@@ -1843,8 +1883,10 @@ class _Ops:
         if x is None:
             return StepResult("skipped")
         t = x.obj
-        if self.has_none(x) or not self.links_synced(x) or generic_pred(t) or self.owned_by_pred(x):
+        if self.has_none(x, strict=True) or not self.links_synced(x) or generic_pred(t) or self.owned_by_pred(x):
             return StepResult("skipped")
+        if isinstance(t, CompositeTransform) and any(generic_pred(m) for m in self.composites_below(t)):
+            return StepResult("skipped")  # predicted member parameters only exist after update(); fit() does not update
         if any(family(e.obj) == "lin" and kind_of(e.obj) in ("C", "L") and e.buf != "fresh" for e in self.elems(x)):
             # fit() evaluates disp() without update(): a linear model reads its cached prediction, which the
             # class documentation only defines after an update()
@@ -2254,8 +2296,14 @@ class _Gen:
         if x is None:
             return None
         op = {"op": "call", "h": x.hid, "pseed": rng.subseed()}
-        if rng.chance(0.2):
+        how = rng.weighted([("points", 6), ("grid", 2), ("image", 1.5), ("pointset", 1)])
+        kept = sorted(v for (h, v) in self.xf if h == x.hid)
+        if kept and rng.chance(0.5):
+            how = rng.choice(kept)  # re-use a transformer module created before the latest state changes
+        if how == "grid":
             op["grid"] = True
+        elif how in ("image", "pointset"):
+            op["via"] = how
         return op
 
     def gen_disp(self, rng):
@@ -2519,6 +2567,10 @@ class XformEngine:
         if op.get("grid") is True:
             o = dict(op)
             o.pop("grid")
+            out.append(o)
+        if op.get("via"):
+            o = dict(op)
+            o.pop("via")
             out.append(o)
         return out
 
